@@ -83,6 +83,14 @@ CURATED_MODES = [
                 ("B", [tok("P2", lit("p")), tok("C2", lit(")"), ["pop"])])]),
     spec("pop-on-empty", [tok("P0", lit("p")), tok("C", lit(")"), ["pop"])]),
     spec("frag-accum-default", [tok("END", lit(";")), frag(plus(cls(["a-z"]))), frag(lit(" "), ["discard"])]),
+    # a mode-switching rule whose match can be extended: it is a proper prefix of another rule, or ends in a repetition
+    # (longest match decides first, then the mode action of the rule that won runs)
+    spec("push-is-prefix", [tok("P0", lit("p")), tok("O1", lit("{"), ["push", "M"]), tok("O2", lit("{{")), tok("CC", lit("}"), ["pop"])],
+         modes=[("M", [tok("P1", lit("p")), tok("C1", lit("}"), ["pop"]), tok("C2", lit("}}"))])]),
+    spec("push-ends-in-repetition", [tok("P0", lit("p")), tok("HERE", cat(lit("<"), plus(cls(["A-C"]))), ["push", "M"])],
+         modes=[("M", [tok("P1", lit("p")), tok("END", cat(lit(">"), star(lit(">"))), ["pop"])])]),
+    spec("frag-push-is-prefix", [tok("P0", lit("p")), tok("OC", lit("#")), frag(lit("{"), ["push", "M"], ["emit", "OC"]), tok("DBL", lit("{{"))],
+         modes=[("M", [tok("P1", lit("p")), tok("CC", lit("}"), ["pop"])])]),
 ]
 
 
@@ -271,4 +279,34 @@ def card_nesting_specs():
             rs.append(tok("R%d" % k, cat(lit(chr(ord("A") + k)), e, lit("!"))))
         rs.append(tok("BARE", cat(chunk[0][1], lit("9"))) if not py_nullable(chunk[0][1], {}) else tok("BARE", lit("9")))
         out.append(spec("cardnest-%d-%s" % (i // per, chunk[0][0]), rs))
+    return out
+
+
+def keyword_specs(rng, n):
+    """language-sized rule sets: one or two small pattern rules (option / repetition / class: DFA states that stand for
+    several low-numbered NFA states) followed by many keyword literals (long chains of single, high-numbered NFA
+    states) that share first characters with each other and with the patterns, and a discarded separator"""
+    letters = "abceilnst"
+    out = []
+    for i in range(n):
+        rules = []
+        heads = [lambda: cat(lit("a"), opt(lit("b"))),
+                 lambda: cat(cls(["a-c"]), star(cls(["a-c"]))),
+                 lambda: cat(lit("a"), star(lit("b")), opt(lit("c"))),
+                 lambda: alt(lit("ab"), cat(lit("a"), plus(cls(["b-c"])))),
+                 lambda: cat(opt(lit("b")), lit("a"), opt(lit("b")))]
+        rng.shuffle(heads)
+        nh = rng.choice([1, 1, 2])
+        pats = [tok("P%d" % k, heads[k]()) for k in range(nh)]
+        kws, seen = [], set()
+        while len(kws) < rng.randint(6, 12):
+            w = "".join(rng.choice(letters) for _ in range(rng.randint(2, 6)))
+            if w not in seen:
+                seen.add(w)
+                kws.append(tok("K%d" % len(kws), lit(w)))
+        # patterns first (they get the low NFA numbers), last, or in the middle
+        place = (0, 1, 0, 2)[i % 4]
+        rules = pats + kws if place == 0 else (kws + pats if place == 1 else kws[:3] + pats + kws[3:])
+        rules.append(frag(plus(lit(" ")), ["discard"]))
+        out.append(spec("kw-%d" % i, rules))
     return out
